@@ -327,7 +327,7 @@ class Recorder:
         """state: an implementation State object (e.g. one returned earlier), or None = env.current_state"""
         env = self.envs[eid]
         arg, adesc = self.action_arg(env, spec)
-        arg_copy = arg.copy() if isinstance(arg, np.ndarray) else None
+        act_copy = arg.copy() if isinstance(arg, np.ndarray) else None
         if state is None:
             state = env.current_state
         argt = state.tensor
@@ -362,7 +362,7 @@ class Recorder:
                   shares_memory=bool(np.shares_memory(state.tensor, nstate.tensor)
                                      or np.shares_memory(env.current_state.tensor, nstate.tensor)),
                   cur_drift=diff_rows(cur_copy, env.current_state.tensor),
-                  arg_modified=bool(arg_copy is not None and not np.array_equal(arg_copy, arg)))
+                  arg_modified=bool(act_copy is not None and not np.array_equal(act_copy, arg)))
         if grp is not None:
             ev["grp"] = grp
         return self.emit(ev), nstate
